@@ -806,6 +806,8 @@ func singleDef(info *types.Info, body ast.Node, e ast.Expr) ast.Expr {
 					defs = append(defs, as.Rhs[i])
 				}
 			}
+		} else if ok && len(as.Rhs) == 1 && len(as.Lhs) > 1 && objOf(info, as.Lhs[0]) == o {
+			defs = append(defs, as.Rhs[0]) // v, err := f(): v is "the" result of f
 		}
 		return true
 	})
